@@ -64,20 +64,31 @@ func c03Spelling(which int, a, b string) (attr string, short, long, refinement a
 		refinement = []any{"/tmp/z"}
 	case 10:
 		attr = "labels"
-		short = []any{"k=" + a, "bare"}
-		long = map[string]any{"k": a, "bare": ""}
+		// one key starts like an extension key: in a mapping of labels it is a label like any other
+		short = []any{"k=" + a, "bare", "x-l=" + b}
+		long = map[string]any{"k": a, "bare": "", "x-l": b}
 		refinement = map[string]any{"z": "z"}
 	case 11:
 		attr = "extra_hosts"
-		short = []any{"ha=10.0.0.1", "hb:10.0.0.2"}
-		long = map[string]any{"ha": "10.0.0.1", "hb": "10.0.0.2"}
+		short = []any{"ha=10.0.0.1", "hb:10.0.0.2", "x-h=10.0.0.4"}
+		long = map[string]any{"ha": "10.0.0.1", "hb": "10.0.0.2", "x-h": "10.0.0.4"}
 		refinement = map[string]any{"hz": "10.0.0.3"}
+	case 12:
+		attr = "sysctls"
+		short = []any{"net.core.somaxconn=" + a, "x-s=1"}
+		long = map[string]any{"net.core.somaxconn": a, "x-s": "1"}
+		refinement = map[string]any{"z": "z"}
+	case 13:
+		attr = "annotations"
+		short = []any{"k=" + a, "x-a=" + b}
+		long = map[string]any{"k": a, "x-a": b}
+		refinement = map[string]any{"z": "z"}
 	}
 	return
 }
 
 func VerifC03Routes() {
-	which := vrtChoice("attr", 12)
+	which := vrtChoice("attr", 14)
 	route := vrtChoice("route", 5) // 0 one file, 1 refined by a second file, 2 arrives in the second file, 3 inherited (same file), 4 inherited (other file)
 	a := "x" + vrtString("a", vrtParam("VL", 1), "ab")
 	b := "y" + vrtString("b", vrtParam("VL", 1), "ab")
